@@ -6,7 +6,11 @@ EXTENDS IOFaultOps
 ASSUME TLCSet(7, ndJsonDeserialize(IOEnv.TRACE))
 Recs == TLCGet(7)
 Verdict(rec) ==
-  LET stepOK(i) == rec.steps[i].seen = (IF rec.steps[i].fault THEN "true" ELSE "false")
+  \* fault: "yes" | "no" | "either" (the standard output still holds bytes an earlier failed write left in its buffer:
+  \* whether a later small write to it meets the full device again is the buffer's business)
+  LET stepOK(i) == CASE rec.steps[i].fault = "yes" -> rec.steps[i].seen = "true"
+                     [] rec.steps[i].fault = "no" -> rec.steps[i].seen = "false"
+                     [] OTHER -> rec.steps[i].seen \in {"true", "false"}
       bad == {i \in 1..Len(rec.steps) : ~stepOK(i)}
   IN [id |-> rec.id, v |-> IF bad = {} /\ rec.done /\ rec.how = "exit" /\ ~rec.rterror THEN "ok" ELSE "bad",
       at |-> IF bad = {} THEN 0 ELSE CHOOSE i \in bad : \A k \in bad : i <= k]
